@@ -71,8 +71,13 @@ TRUSTED = ['GEOS polygon-line intersection itself (compared on every case with t
            'and compared with GEOS; that the half-plane set of a convex ring equals the ring\'s polygon is classical geometry, not proved']
 ASSUMPTIONS = ['metric lengths depend on PROJ floating point: only parameter-space coverage is proved; planar lengths are compared with a 1e-9 relative tolerance in the oracle',
                'segments_within_cells is proved for convex cells (CF grids, SHOC, convex mesh faces); for concave mesh faces "lies within its cell" rests on the correspondence and the oracle']
-LEVEL_NOTE = ('the clipping of the path against a convex cell is part of the Lean model and proved exact (every point of a piece is in '
-              'the cell, every point of the leg in the cell is in the piece); GEOS is compared against it, not against Python code')
+LEVEL_NOTE = ('The clipping of the path against a convex cell is part of the Lean model and proved exact (every point of a piece is in '
+              'the cell, every point of the leg in the cell is in the piece); GEOS is compared against it, not against Python code. '
+              'Partial: metric lengths (PROJ) are outside the model - coverage is proved in path-parameter space, distances are compared '
+              'for order only; for concave mesh faces the clipper is an unproved event clipper cross-checked against the proved one on every '
+              'convex cell; GEOS constructive geometry itself is compared, never proved. One known finding (edge-running stretches reported '
+              'once per adjacent cell). Trusted: Lean kernel (axioms propext, Quot.sound, Classical.choice), the hand-written model, the '
+              'harness (generators, canonicalisers, driver parser), numpy/xarray/shapely behaviour taken as parameters.')
 
 DEPTH_NAME = {'cf1d': 'depth', 'cf2d': 'depth', 'shoc_simple': 'zc', 'shoc_standard': 'z_centre', 'ugrid': 'depth'}
 
